@@ -125,10 +125,11 @@ impl LinearEncodeImpl {
     requires
         param.rho_inv >= 1, param.sec_param <= 0x7fff_ffff,
         poly_to_vec_spec(polynomial).len() < 0x1_0000_0000_0000,
-        t_params_ok(param.sec_param as int, ((param.rho_inv - 1) as usize, param.rho_inv), poly_to_vec_spec(polynomial).len() as int),
-        // NOTE: no requirement that the coefficient vector is non-empty: the zero polynomial is an in-domain request (C17)
+        // the security parameters must be usable for the number of coefficients laid out (the zero polynomial is laid out as ONE zero coefficient)
+        t_params_ok(param.sec_param as int, ((param.rho_inv - 1) as usize, param.rho_inv), (if poly_to_vec_spec(polynomial).len() == 0 { 1int } else { poly_to_vec_spec(polynomial).len() as int })),
+        // NOTE: no requirement that the coefficient vector is non-empty: the zero polynomial is an in-domain request (C17; finding F7, fixed)
     ensures
-        r.0.n * r.0.m >= poly_to_vec_spec(polynomial).len(),   // name=linear_codes.compute_matrices.matrix_holds_all_coefficients props=C01,C19
+        r.0.n * r.0.m >= poly_to_vec_spec(polynomial).len(), r.0.n * r.0.m >= 1,   // name=linear_codes.compute_matrices.matrix_holds_all_coefficients props=C01,C19,C17
         is_p2(r.0.n as nat),
         r.1.n == r.0.n,                                         // name=linear_codes.compute_matrices.encoded_matrix_has_same_row_count props=C19
 //@body
